@@ -125,11 +125,22 @@ def check_rho_pairing(ctx: Check, tree: Tree) -> None:
         ctx.verdict(ok, "R-SYMPAIR", f"{MOD}::symbol `{skel}`", where,
                     f"symbol `{skel}`: {len(members)} construction sites agree in kind and assumptions", detail)
     rho = groups.get("rho{}", [])
-    fns = {m["fn"] for m in rho}
+    direct = {m["fn"] for m in rho}
+    graph = tree.call_graph()
     need = {f"{MOD}::_create_rho_matrix", f"{MOD}::RelativisticKMatrix.formulate", f"{MOD}::RelativisticPVector.formulate"}
+    # a function "constructs" the symbol when a construction site is reachable from it inside this module (helper functions)
+    fns = {q for q in need if any(r in direct for r in tree.reachable(q, graph) if r.startswith(MOD + "::"))}
     ctx.verdict(need <= fns, "R-SYMPAIR", f"{MOD}::rho-producer-consumer", tree.loc(rho[0]["node"]) if rho else MOD,
-                "Symbol(f'rho{i}') is constructed by the producer (_create_rho_matrix) and substituted by both relativistic formulate() methods",
+                "Symbol(f'rho{i}') is constructed by the producer (_create_rho_matrix) and substituted by both relativistic formulate() methods (directly or through a shared helper)",
                 None if need <= fns else f"missing at {sorted(need - fns)}: rho_i would stay undefined in the result")
+    # R-PLACEHOLDER: rho_i stands for an arbitrary, in general complex, phase-space factor that is
+    # substituted AFTER the matrix algebra; any assumption on the placeholder (positive, real, ...)
+    # lets SymPy simplify conjugate(sqrt(rho)) / Abs / sqrt before the substitution
+    for m in rho:
+        ok = not m["assumptions"]
+        ctx.verdict(ok, "R-PLACEHOLDER", f"{m['fn']}::rho-placeholder-assumptions", tree.loc(m["node"]),
+                    f"{m['fn'].split('::')[-1]}: the placeholder rho_i carries no assumptions (it is replaced by a caller-supplied, possibly complex phase-space factor after the algebra)",
+                    None if ok else f"assumptions {m['assumptions']}: conjugate(sqrt(rho)) is simplified while rho is still a placeholder - the conjugate in K^ = conj(sqrt rho)^-1 K sqrt(rho)^-1 and T = conj(sqrt rho) T^ sqrt(rho) is lost for channels below threshold")
 
 
 def check_parametrize_wiring(ctx: Check, tree: Tree) -> None:
@@ -179,6 +190,8 @@ def run(ctx: Check, tree: Tree) -> None:
         "T = K(1-iK)^-1; T^ = K(1 - i rho K)^-1 (or the push-through equivalent), T = conj(sqrt rho) T^ sqrt rho - non-commutative normal form (R-TERM-NC)",
         "rho symbols of producer and consumers agree; duplicated s/m/Gamma/gamma/m_a/m_b/R constructions agree in kind and assumptions (R-SYMPAIR)",
         "formulate substitutes K[i,j] by the own parametrization(i=i, j=j) (R-WIRING)",
+        "the rho_i placeholders carry no assumptions (R-PLACEHOLDER)",
+        "phsp_factor / angular_momentum / meson_radius are forwarded to every callee in ampform.dynamics (R-FORWARD): the width of the relativistic K-matrix is a ratio of ONE phase-space factor at s and at the pole, hence real",
     ]
     ctx.not_decided += ["numerical unitarity (1+2iT)^dagger(1+2iT)=1", "that the chosen phase-space factor is real above threshold (see C11)"]
     ctx.assumptions += [
@@ -194,3 +207,9 @@ def run(ctx: Check, tree: Tree) -> None:
     ctx.section(check_rho_pairing, ctx, tree)
     ctx.section(check_parametrize_wiring, ctx, tree)
     ctx.section(check_cached_matrices_not_mutated, ctx, tree)
+    # K real: the energy dependent width is Gamma0 * ... * rho(s)/rho(m0^2) with ONE phase-space
+    # factor; a callee that silently falls back to its default phsp_factor / L / radius mixes two
+    # (complex ratio below threshold) - the forwarding rule of C10 is a necessary condition here too
+    from .c10 import check_forward
+
+    ctx.section(check_forward, ctx, tree)
